@@ -139,7 +139,7 @@ PLANS = {
         "assumptions": ["reference pin transform table in harness/circ.hpp (DEF semantics)"],
         "runs": [R("h_hpwl", "asan", "c09.hpwl", 100000, 400000), R("h_hpwl", "asan", "c09.incr", 50000, 200000),
                  R("h_hpwl", "fast", "c09.hpwl", 0, 1000000), R("h_hpwl", "fast", "c09.incr", 0, 400000),
-                 R("h_dp", "asan", "c09.opt", 5000, 20000), R("h_dp", "asan", "c09.reorder", 4000, 20000), R("h_dp", "fast", "c09.opt", 0, 40000)],
+                 R("h_hpwl", "tsan", "c09.threads", 96, 480), R("h_dp", "asan", "c09.opt", 5000, 20000), R("h_dp", "asan", "c09.reorder", 4000, 20000), R("h_dp", "fast", "c09.opt", 0, 40000)],
     },
     "C12": {
         "level": "exploration",
@@ -152,7 +152,7 @@ PLANS = {
         "assumptions": ["isotonic-L1 DP over the candidate set is exact (cross-checked against brute force for segments <= 300)"],
         "runs": [R("h_row", "fast", "c12.exhaustive7", 588, 588, exhaustive=True),
                  R("h_row", "asan", "c12.random", 100000, 400000), R("h_row", "asan", "c12.big", 30000, 200000),
-                 R("h_row", "fast", "c12.random", 0, 1000000), R("h_row", "fast", "c12.big", 0, 400000)],
+                 R("h_row", "tsan", "c12.threads", 160, 800), R("h_row", "fast", "c12.random", 0, 1000000), R("h_row", "fast", "c12.big", 0, 400000)],
     },
     "C13": {
         "level": "exploration",
@@ -166,7 +166,7 @@ PLANS = {
         "runs": [R("h_transp", "asan", "c13.random", 100000, 400000), R("h_transp", "fast", "c13.exhaustive2", 1521, 1521, exhaustive=True),
                  R("h_transp", "fast", "c13.exhaustive3", 0, 1521, exhaustive=True), R("h_transp", "fast", "c13.random", 0, 600000),
                  R("h_transp", "fast", "c13.cascade", 4000000, 12000000), R("h_transp", "asan", "c13.cascade", 50000, 300000),
-                 R("h_transp", "fast", "c13.nearfull", 100000, 1000000), R("h_transp", "asan", "c13.nearfull", 20000, 100000)],
+                 R("h_transp", "tsan", "c13.threads", 160, 800), R("h_transp", "fast", "c13.nearfull", 100000, 1000000), R("h_transp", "asan", "c13.nearfull", 20000, 100000)],
     },
     "C14": {
         "level": "exploration",
@@ -179,7 +179,7 @@ PLANS = {
         "runs": [R("h_t1d", "asan", "c14.random", 50000, 300000), R("h_t1d", "asan", "c14.zeros", 50000, 300000),
                  R("h_t1d", "asan", "c14.exhaustive", 4563, 4563, exhaustive=True),
                  R("h_t1d", "fast", "c14.random", 0, 500000), R("h_t1d", "fast", "c14.zeros", 0, 500000),
-                 MC("h_t1d", "c14.zeros", 64)],
+                 MC("h_t1d", "c14.zeros", 64), R("h_t1d", "tsan", "c14.threads", 160, 800)],
     },
     "C15": {
         "level": "exploration",
